@@ -156,7 +156,7 @@ pub fn generate(a: &Args) {
     let girth_runs: Vec<Vec<String>> = if th {
         vec![vec![s("ccsds"), s("--rate"), s("2/3"), s("--block-size"), s("1024")], vec![s("ccsds"), s("--rate"), s("4/5"), s("--block-size"), s("1024")],
              vec![s("ccsds"), s("--rate"), s("2/3"), s("--block-size"), s("4096")], vec![s("ccsds"), s("--rate"), s("4/5"), s("--block-size"), s("4096")],
-             vec![s("dvbs2"), s("--rate"), s("1/4"), s("--short")], vec![s("dvbs2"), s("--rate"), s("8/9"), s("--short")], vec![s("ccsds-c2")]]
+             vec![s("dvbs2"), s("--rate"), s("1/4"), s("--short")], vec![s("dvbs2"), s("--rate"), s("8/9"), s("--short")]]   // (ccsds-c2 has no --girth option)
     } else {
         vec![vec![s("ccsds"), s("--rate"), s("4/5"), s("--block-size"), s("1024")], vec![s("ccsds"), s("--rate"), s("4/5"), s("--block-size"), s("4096")],
              vec![s("dvbs2"), s("--rate"), s("8/9"), s("--short")]]
